@@ -3,6 +3,7 @@
 All harness runs happen first; then ONE batch of kernel evaluations (a handful of coqc processes in
 parallel) compares every observation with the model (correspondence) and with the specification
 (oracle), and classifies oracle failures by finding class inside Coq."""
+import json
 import re
 
 from lib.vlib import gN as _gN, gbool, glist, gpair, gnat
@@ -70,7 +71,8 @@ def op_term(kind, op, menu):
         if k in ("on", "once"):
             return "(%s %s %s)" % ("EOn" if k == "on" else "EOnce", gN(op[1]), fval(menu, op[2]))
         if k == "off":
-            return "(EOff %s %s)" % (gN(op[1]), glist(fval(menu, h) for h in op[2]))
+            # h < 0 is a literal nil argument: the registry drops zero Values first (they name nothing)
+            return "(EOff %s %s)" % (gN(op[1]), glist(fval(menu, h) for h in op[2] if h >= 0))
         if k == "fire":
             return "(EFire %s)" % gN(op[1])
         return "EOffAll"
@@ -91,7 +93,7 @@ def py_class(kind, ops, menu):
             if o[0] in ("on", "once"):
                 hs.add(tuple(menu[o[2]]))
             elif o[0] == "off":
-                hs.update(tuple(menu[h]) for h in o[2])
+                hs.update(tuple(menu[h]) for h in o[2] if h >= 0)
         return any(a[0] == b[0] and a[1] != b[1] for a in hs for b in hs)
     return False
 
@@ -239,8 +241,10 @@ def enum_suite(ctx, vh, batch, st, name, targets, alphabet, plen, depth):
             else:
                 h_out = hseq(h_out, o)
         term = "enum_digest %s %s %s %s %s %s %s" % (fm, fs, cls, alpha, pre, suf, gnat(depth))
-        exact = "enum_check %s %s %s %s %s %s %s %s" % (fm, fs, cls, alpha, pre, suf, gnat(depth),
-                                                        glist(gN(int(x, 8)) for x in row["obs"]))
+
+        def exact(row=row, fm=fm, fs=fs, cls=cls, alpha=alpha, pre=pre, suf=suf):
+            return "enum_check %s %s %s %s %s %s %s %s" % (fm, fs, cls, alpha, pre, suf, gnat(depth),
+                                                           glist(gN(int(x, 8)) for x in row["obs"]))
 
         def consume_exact(v, hdr=hdr, row=row, tgt=tgt, kind=kind, menu=menu, nseq=nseq):
             nums = [int(x) for x in re.findall(r"\d+", v)]
@@ -290,7 +294,7 @@ def enum_suite(ctx, vh, batch, st, name, targets, alphabet, plen, depth):
                 report_oracle_failure(ctx, st, su, kind, tgt, ops, decode(row["obs"][first - 1]), True, menu,
                                       panic="7" in row["obs"][first - 1])
             if d_model != h_all or d_spec != h_out or c_in != n_in:
-                st.refine.add(nseq, exact, consume_exact)
+                st.refine.add(nseq, exact(), consume_exact)
 
         batch.add(nseq * (plen + depth + len(hdr["suffix"])), term, consume)
 
@@ -309,10 +313,13 @@ def case_term(kind, row):
     return gpair(ops, outs, gbool(row["panic"]))
 
 
-def random_suite(ctx, vh, batch, st, name, targets, n, maxlen):
+def random_suite(ctx, vh, batch, st, name, targets, n, maxlen, replay=None):
     su = st.suite("random/" + name, "seeded random call sequences up to %d ops" % maxlen)
-    rows = ctx.vh_jsonl(vh, "handlers", ["-mode", "random", "-target", ",".join(targets), "-seed", ctx.seed,
-                                         "-n", n, "-maxlen", maxlen])
+    if replay is not None:  # one explicit call sequence from a replay file
+        args = ["-mode", "replay", "-target", replay["target"], "-ops", json.dumps(replay["ops"])]
+    else:
+        args = ["-mode", "random", "-target", ",".join(targets), "-seed", ctx.seed, "-n", n, "-maxlen", maxlen]
+    rows = ctx.vh_jsonl(vh, "handlers", args)
     if rows is None:
         return
     by_kind = {}
@@ -390,9 +397,25 @@ def race_suite(ctx, vh, batch, st, handlers, goroutines, repeats):
     batch.add(1, "map race_oracle %s" % glist(terms), consume)
 
 
+def finish_suites(ctx, st):
+    for name, su in st.suites.items():
+        ctx.obligation("correspondence:" + name, "correspondence", su["agree_bad"] == 0,
+                       "%d call sequences (%s), %d differ from the model" % (su["total"], su["detail"], su["agree_bad"]))
+        ctx.obligation("oracle:" + name, "oracle", su["unknown"] == 0,
+                       "%d call sequences, %d fail the specification, %d of them outside the known finding classes"
+                       % (su["total"], su["oracle_bad"], su["unknown"]))
+        if su["agree_bad"] and su["unknown"] == 0:
+            c = su["first_agree"]
+            ctx.violation("%s no longer computes what the model Sio/HandlerStore.v computes (%d call sequences of suite "
+                          "%s differ, none of them fails the specification outside a known finding class); first: %s"
+                          % (c.get("target"), su["agree_bad"], name, c),
+                          {"kind": "correspondence-broken", "suite": name, "theorems": THEOREMS, "case": c},
+                          no_input=True)
+
+
 def run(ctx):
     ctx.rule = ("enumerated: every call sequence of 4 (quick) / 5 (thorough) ops over fixed alphabets (12 ops on 3 handlers "
-                "for handlerStore, 9 with sub-events, 14 ops on 2 events x 2 handlers and 9 with closures of one literal "
+                "for handlerStore, 9 with sub-events, 15 ops on 2 events x 2 handlers and 10 with closures of one literal "
                 "for eventHandlerStore), 3 (quick) / 4 (thorough) ops for each of the 18 public lifecycle families and the 3 "
                 "public event APIs, each followed by closing occurrences; seeded random sequences up to 30 ops; concurrent "
                 "once race (counted per Once handler). Non-trivial = at least one handler was run by some occurrence "
@@ -410,6 +433,16 @@ def run(ctx):
         return
     q = ctx.quick
     batch, st = Batch(), State()
+    rf = getattr(ctx, "replay_file", None)
+    if rf:  # bin/check C18 --replay <file>: re-run the recorded call sequence on the working tree
+        rp = json.load(open(rf))["replay"]
+        if rp.get("mode") == "race":
+            race_suite(ctx, vh, batch, st, 10000, 16, 3)
+        else:
+            random_suite(ctx, vh, batch, st, "replay", None, 1, 30, replay=rp)
+        batch.run(ctx, "c18", jobs=1)
+        finish_suites(ctx, st)
+        return
     enum_suite(ctx, vh, batch, st, "store-core", ["ls"], "core", 1, 3 if q else 4)
     enum_suite(ctx, vh, batch, st, "store-subs", ["ls"], "subs", 1, 3 if q else 4)
     enum_suite(ctx, vh, batch, st, "events-core", ["es"], "core", 1, 2 if q else 3)
@@ -422,16 +455,4 @@ def run(ctx):
     race_suite(ctx, vh, batch, st, 10000, 16, 1 if q else 5)
     batch.run(ctx, "c18", jobs=8 if q else 14)
     st.refine.run(ctx, "c18_exact", jobs=8)
-    for name, su in st.suites.items():
-        ctx.obligation("correspondence:" + name, "correspondence", su["agree_bad"] == 0,
-                       "%d call sequences (%s), %d differ from the model" % (su["total"], su["detail"], su["agree_bad"]))
-        ctx.obligation("oracle:" + name, "oracle", su["unknown"] == 0,
-                       "%d call sequences, %d fail the specification, %d of them outside the known finding classes"
-                       % (su["total"], su["oracle_bad"], su["unknown"]))
-        if su["agree_bad"] and su["unknown"] == 0:
-            c = su["first_agree"]
-            ctx.violation("%s no longer computes what the model Sio/HandlerStore.v computes (%d call sequences of suite "
-                          "%s differ, none of them fails the specification outside a known finding class); first: %s"
-                          % (c.get("target"), su["agree_bad"], name, c),
-                          {"kind": "correspondence-broken", "suite": name, "theorems": THEOREMS, "case": c},
-                          no_input=True)
+    finish_suites(ctx, st)
